@@ -82,3 +82,27 @@ func TestKF_MMapShortWrite(t *testing.T) {
 		t.Errorf("REPRODUCED: MMapRWManager.WriteAt wrote %d of 50 bytes and returned a nil error", n)
 	}
 }
+
+func TestKF_SMoveBypassesLog(t *testing.T) {
+	db, dir := kfOpen(t, HintKeyValAndRAMIdxMode, 4096)
+	defer os.RemoveAll(dir)
+	if err := db.Update(func(tx *Tx) error {
+		if err := tx.SAdd("b", []byte("s1"), []byte("x")); err != nil {
+			return err
+		}
+		return tx.SAdd("b", []byte("s2"), []byte("y"))
+	}); err != nil {
+		t.Fatal(err)
+	}
+	// a READ-ONLY transaction moves the member
+	_ = db.View(func(tx *Tx) error {
+		_, err := tx.SMoveByOneBucket("b", []byte("s1"), []byte("s2"), []byte("x"))
+		return err
+	})
+	_ = db.View(func(tx *Tx) error {
+		if ok, _ := tx.SIsMember("b", []byte("s1"), []byte("x")); !ok {
+			t.Errorf("REPRODUCED: SMoveByOneBucket inside a read-only transaction changed the set index (x left s1)")
+		}
+		return nil
+	})
+}
